@@ -127,6 +127,29 @@ def _patterns3():
     }
 
 
+def ternary_overlap_family(tier):
+    """A 3-vertex custom edge in each of its 6 vertex orders, together with a binary edge (either direction) on the pair of FREE
+    vertices, for each choice of the one fixed vertex: every way a block of the ternary edge can meet the block of another edge."""
+    shapes = []
+    combos = [("SE2", "R2", "SE2"), ("R3", "SE3", "R2")] if tier == "thorough" else [("SE2", "R2", "R3")]
+    ids = ID_SETS[1]
+    n = 0
+    for types in combos:
+        for fixed_pos in range(3):
+            free = [p for p in range(3) if p != fixed_pos]
+            for perm in itertools.permutations(range(3)):
+                for pair in (tuple(free), tuple(reversed(free))):
+                    n += 1
+                    vs = [(ids[i], types[i], i == fixed_pos) for i in range(3)]
+                    es = [("cut", tuple(ids[p] for p in perm), 1 + n % 3), ("cut", tuple(ids[p] for p in pair), 1 + (n + 1) % 3)]
+                    if n % 2:
+                        es.reverse()
+                    sh = {"vertices": vs, "edges": es, "fix_first_pose": False, "idset": 1, "pattern": "ternary-overlap"}
+                    sh["name"] = name_of(sh)
+                    shapes.append(sh)
+    return shapes
+
+
 def family(tier, seed, well_posed_only=False):
     """The stated finite family of shapes (deterministic), plus seeded random shapes in the thorough tier."""
     shapes = []
